@@ -325,23 +325,55 @@ theorem lookup_setChild (cs : List (Name × Ino)) (n : Name) (t : Ino) : (setChi
 
 /-! ### hard links share content -/
 
+/-- `Link(old, new)` succeeds when the parent of the new name is a directory, the old name resolves
+to something that is not a directory, and the new name is free and a real entry name -/
+theorem link_succeeds (c : Cfg) (fs : FS) (o n : Text) (pi t : Ino)
+    (hp : getNode c fs (dir n) = .ok pi) (ho : getNode c fs o = .ok t)
+    (hd : (fs.node pi).dir = true) (htd : (fs.node t).dir = false) (hdn : dotName (base n) = false)
+    (hnone : fs.lookup pi (base n) = none) :
+    step c fs (.link o n) =
+      ((fs.link pi (base n) t).modify t fun nd => { nd with nlink := nd.nlink + 1 }, .ok .unit) := by
+  simp [step, linkOp, parentOf, hp, ho, hd, hnone, htd, hdn]
+
 /-- **hardlinks_share**: a successful `Link(old, new)` enters under the new name the very inode the old
 name resolves to — contents, metadata and xattrs live in the inode, so every later read or write
-through either name acts on the same data. -/
-theorem hardlinks_share (c : Cfg) (fs : FS) (o n : Text) (pi t : Ino)
-    (hp : getNode c fs (dir n) = .ok pi) (ho : getNode c fs o = .ok t)
-    (hd : (fs.node pi).dir = true) (hnone : fs.lookup pi (base n) = none) :
-    (step c fs (.link o n)).2 = .ok .unit ∧ (step c fs (.link o n)).1.lookup pi (base n) = some t := by
-  have hpl := dir_lt fs pi hd
-  have hstep : step c fs (.link o n) =
-      ((fs.link pi (base n) t).modify t fun nd => { nd with nlink := nd.nlink + 1 }, .ok .unit) := by
-    simp [step, linkOp, parentOf, hp, ho, hd, hnone]
-  rw [hstep]
-  refine ⟨rfl, ?_⟩
-  simp only [FS.lookup, FS.link, node_modify, length_modify]
-  by_cases hpt : pi = t
-  · subst hpt; simp [hpl, lookup_setChild]
-  · simp [hpt, hpl, lookup_setChild]
+through either name acts on the same data — and that inode is never a directory (`EPERM`, F17h), so
+hard links cannot make a directory reachable twice. -/
+theorem hardlinks_share (c : Cfg) (fs : FS) (o n : Text)
+    (hok : (step c fs (.link o n)).2 = .ok .unit) :
+    ∃ pi t, getNode c fs (dir n) = .ok pi ∧ getNode c fs o = .ok t ∧ (fs.node t).dir = false ∧
+      dotName (base n) = false ∧ (step c fs (.link o n)).1.lookup pi (base n) = some t := by
+  simp only [step, linkOp, parentOf] at hok
+  cases hp : getNode c fs (dir n) with
+  | error e => simp [hp] at hok
+  | ok pi =>
+    simp only [hp] at hok
+    cases hd : (fs.node pi).dir with
+    | false => simp [hd] at hok
+    | true =>
+      simp only [hd, Bool.not_true, Bool.false_eq_true, if_false] at hok
+      cases ho : getNode c fs o with
+      | error e => simp [ho] at hok
+      | ok t =>
+        simp only [ho] at hok
+        cases htd : (fs.node t).dir with
+        | true => simp [htd] at hok
+        | false =>
+          simp only [htd, Bool.false_eq_true, if_false] at hok
+          cases hdn : dotName (base n) with
+          | true => simp [hdn] at hok
+          | false =>
+            simp only [hdn, Bool.false_eq_true, if_false] at hok
+            cases hnone : fs.lookup pi (base n) with
+            | some x => simp [hnone] at hok
+            | none =>
+              refine ⟨pi, t, rfl, rfl, htd, rfl, ?_⟩
+              have hpl := dir_lt fs pi hd
+              rw [link_succeeds c fs o n pi t hp ho hd htd hdn hnone]
+              simp only [FS.lookup, FS.link, node_modify, length_modify]
+              by_cases hpt : pi = t
+              · subst hpt; simp [hpl, lookup_setChild]
+              · simp [hpt, hpl, lookup_setChild]
 
 /-! ### loop detection -/
 
@@ -482,6 +514,8 @@ theorem tie_subJoins : Generated.subJoins = (["Open",
   "Chmod",
   "Chown",
   "Chtimes",
+  "Symlink",
+  "Link",
   "Readlink",
   "Mknod",
   "Readnod",
@@ -489,7 +523,6 @@ theorem tie_subJoins : Generated.subJoins = (["Open",
   "GetXattr",
   "RemoveXattr",
   "ListXattrs"] : List String) := by rfl
-theorem tie_subPasses : Generated.subPasses = (["Symlink",
-  "Link"] : List String) := by rfl
+theorem tie_subPasses : Generated.subPasses = ([] : List String) := by rfl
 
 end Apko.C17
